@@ -11,6 +11,7 @@ HARNESS_FILES = {
     "turmoil-net/fabric.rs": {"crate": "turmoil-net", "anchor": "crates/turmoil-net/src/fabric.rs"},
     "turmoil-net/scheduler.rs": {"crate": "turmoil-net", "anchor": "crates/turmoil-net/src/fixture/scheduler.rs"},
     "turmoil/host.rs": {"crate": "turmoil", "anchor": "crates/turmoil/src/host.rs"},
+    "turmoil/sim.rs": {"crate": "turmoil", "anchor": "crates/turmoil/src/sim.rs"},
     "turmoil/top.rs": {"crate": "turmoil", "anchor": "crates/turmoil/src/top.rs"},
     "turmoil/ip.rs": {"crate": "turmoil", "anchor": "crates/turmoil/src/ip.rs"},
     "turmoil/dns.rs": {"crate": "turmoil", "anchor": "crates/turmoil/src/dns.rs"},
